@@ -40,6 +40,10 @@ theorem gen_receivedOrder_eq : Gen.Openers.receivedOrder = receivedOrder := rfl
 theorem gen_generalOrder_eq : Gen.Openers.generalOrder = generalOrder := rfl
 theorem gen_topOrder_eq : Gen.Openers.topOrder = topOrder := rfl
 theorem gen_entryShape_eq (e : Entry) : Gen.Openers.entryShape e = entryShape e := by cases e <;> rfl
+/-- the chain of tests of ComplexNITFDetails._check_band_details (with extract_sicd.get_image_data) is the specified one;
+    Props/C14Vendor.lean `runBand_bandTab` proves that chain equal to `checkBand`, on which `finalAttempt` is built -/
+theorem gen_bandTab_eq : Gen.Openers.bandTab = bandTab := rfl
+
 /-- is_file_like, is_hdf5, _fetch_initial_bytes, _is_level1_product, _determine_file_type, check_for_openers are the pinned ones -/
 theorem gen_pins : Gen.Openers.pinsOk = true := rfl
 
